@@ -37,9 +37,9 @@ variants = {
     "var_sigma": src.replace(
         "    sigma_x = 1.0 / n * (np.linalg.norm(x - mean_x[:, np.newaxis])**2)",
         "    sigma_x = x.var(axis=1).sum()"),
-    "one_sided": src.replace(
-        "np.outer((y[:, i] - mean_y), (x[:, i] - mean_x))",
-        "np.outer(y[:, i] - mean_y, x[:, i])"),
+    # (centring only one factor is *not* among the legitimate rewrites: it is
+    #  algebraically equal but loses eps * offset^2 — seeded/C03i; variant
+    #  eqv-one-sided-centring of sa/rules/c03.py expects C03.5 to fire)
     "float_minus_one": src.replace("s[m - 1, m - 1] = -1",
                                    "s[m - 1, m - 1] = -1.0"),
     "shape_unpack": src.replace("    m, n = x.shape\n",
